@@ -595,6 +595,12 @@ func (c *Ctx) stageHistories(refs map[refKey]*Ref, keys []refKey) {
 					}
 				}
 				rop.ID = p + "d2"
+				if rng.Intn(2) == 0 {
+					// the same parsed *tree.HTML rendered again with a FRESH font
+					// configuration (everything a render registers must be re-registered)
+					ops = append(ops, Op{Op: "fontconfig", ID: p + "f2", Engine: cfg.Engine})
+					rop.FC = p + "f2"
+				}
 				ops = append(ops, rop, Op{Op: "write", ID: p + "t3", Doc: p + "d2", Zoom: cfg.Zoom})
 				h.expect[p+"t3"] = k
 			}
